@@ -45,12 +45,12 @@ def run(ctx):
     for rec in recs:
         v = verdicts[rec["id"]]
         if rec["kind"] in ("poly", "recur") or rec["ms"]:
-            nontriv.add(json.dumps({k: rec[k] for k in ("cell", "a", "b", "fault_at", "member") if k in rec}, sort_keys=True))
+            nontriv.add(json.dumps({k: rec[k] for k in ("cell", "a", "b", "fault_at", "member", "container") if k in rec}, sort_keys=True))
         if v["v"] != "ok":
             if rec["kind"] == "cell":
                 sig = f"{v['v']} [markers={','.join(rec['ms']) or '-'} junk={rec['junk']} trailer={rec['cell']['trailer']}]"
             elif rec["kind"] == "recur":
-                sig = f"{v['v']} [archive member={rec['member']}]"
+                sig = f"{v['v']} [{rec['container']} member={rec['member']}]"
             else:
                 sig = f"{v['v'].split(':')[0]} [pair={rec['a']}+{rec['b']} fault={rec['fault_at']} outcome={rec['outcome']}]"
             failures.append({"sig": sig, "detail": json.dumps({k: rec[k] for k in rec if k != 'id'})[:300], "replay_obj": {"property": "C17", "record": rec, "verdict": v}})
